@@ -406,3 +406,6 @@ Definition run (f : flag) : res outcome :=
   end.
 
 End Eval.
+
+Arguments seg_fuel : simpl never.
+Arguments flag_fuel : simpl never.
